@@ -544,6 +544,21 @@ impl World
         g.disk.remove_tree(path);
     }
 
+    /* `find . -type d -empty -delete`, sparing `keep` and what lies under it */
+    pub fn user_prune_empty_dirs(&self, keep : &str)
+    {
+        let mut g = self.lock();
+        g.clock += 1;
+        let keep_prefix = format!("{}/", keep);
+        let dirs : Vec<String> = g.disk.paths.iter().filter(|(_, e)| **e == Entry::Dir).map(|(p, _)| p.clone()).collect();
+        for d in dirs.iter().rev()
+        {
+            if d == keep || d.starts_with(&keep_prefix) || keep.starts_with(&format!("{}/", d)) { continue; }
+            let prefix = format!("{}/", d);
+            if !g.disk.paths.keys().any(|p| p.starts_with(&prefix)) { g.disk.paths.remove(d); }
+        }
+    }
+
     pub fn user_mkdir(&self, path : &str)
     {
         let mut g = self.lock();
